@@ -467,6 +467,28 @@ def dec_str(x):
     return "0" if t in ("-0", "") else t
 
 
+def sat(op, v):
+    """an attribute value that makes the term true, where that is easy to say"""
+    from decimal import Decimal, InvalidOperation
+    if v["s"] is not None:
+        if v["unq"] is None:
+            return None
+        u = unhex(v["unq"]).decode("utf8", "surrogateescape")
+        if op in ("=~", "!~"):
+            # a pattern without metacharacters matches itself (and the values that contain it)
+            if not u or re.search(r"[\\.+*?()|\[\]{}^$]", u):
+                return None
+            return u if op == "=~" else "zz"
+        return u if op == "=" else (u + "_" if op == "!=" else None)
+    if v["f"]:
+        try:
+            th = Decimal(v["f"])
+        except InvalidOperation:
+            return None
+        return {"=": dec_str(th), "!=": dec_str(th + 1), ">": dec_str(th + 1), ">=": dec_str(th), "<": dec_str(th - 1), "<=": dec_str(th)}.get(op)
+    return None
+
+
 def gen_db(c, rnd):
     import datetime
     from decimal import Decimal, InvalidOperation
@@ -520,26 +542,6 @@ def gen_db(c, rnd):
     ctx = c["ctx"]
     cached = ctx["cached"] or []
 
-    def sat(op, v):
-        """an attribute value that makes the term true, where that is easy to say"""
-        if v["s"] is not None:
-            if v["unq"] is None:
-                return None
-            u = unhex(v["unq"]).decode("utf8", "surrogateescape")
-            if op in ("=~", "!~"):
-                # a pattern without metacharacters matches itself (and the values that contain it)
-                if not u or re.search(r"[\\.+*?()|\[\]{}^$]", u):
-                    return None
-                return u if op == "=~" else "zz"
-            return u if op == "=" else (u + "_" if op == "!=" else None)
-        if v["f"]:
-            try:
-                th = Decimal(v["f"])
-            except InvalidOperation:
-                return None
-            return {"=": dec_str(th), "!=": dec_str(th + 1), ">": dec_str(th + 1), ">=": dec_str(th), "<": dec_str(th - 1), "<=": dec_str(th)}.get(op)
-        return None
-
     indexed = [(strip_scope(l), op, v) for l, op, v in terms if strip_scope(l) is not None and sat(op, v) is not None]
     rows = []
     # many traces when the limit is small (a LIMIT inside a sub-query only shows when it cuts something)
@@ -591,7 +593,8 @@ def gen_db(c, rnd):
 
 
 def same_slot_groups(ast):
-    """per selector: the groups of at least two terms with the same label and operator and different value tokens (what a printer might conflate)"""
+    """per selector: the groups of at least two different terms on one attribute (labels compared after scope stripping, case folding and
+    dropping punctuation: whatever a printer might conflate): [(normalised label, [(label, op, value json)], all terms of that selector)]"""
     groups = []
 
     def exp(e, acc):
@@ -599,57 +602,95 @@ def same_slot_groups(ast):
             return
         if e["head"] is not None:
             h = e["head"]
-            acc.setdefault((h["label"], h["op"]), []).append(h["val"])
+            k = strip_scope(h["label"])
+            if k is not None:
+                acc.setdefault(re.sub(r"[^a-z0-9]", "", k.lower()), []).append((h["label"], h["op"], h["val"]))
         exp(e["chead"], acc)
         exp(e["tail"], acc)
     s = ast
     while s is not None:
         acc = {}
         exp(s["head"]["attr"], acc)
-        for (label, op), vals in sorted(acc.items()):
+        for nl, terms in sorted(acc.items()):
             distinct = []
-            for v in vals:
-                if all((v["t"], v["f"], v["s"]) != (w["t"], w["f"], w["s"]) for w in distinct):
-                    distinct.append(v)
+            for t in terms:
+                tok = (t[0], t[1], t[2]["t"], t[2]["f"], t[2]["s"])
+                if all(tok != (w[0], w[1], w[2]["t"], w[2]["f"], w[2]["s"]) for w in distinct):
+                    distinct.append(t)
             if len(distinct) >= 2:
-                groups.append((label, op, distinct))
+                groups.append((nl, distinct, [t for ts in acc.values() for t in ts]))
         s = s["tail"]
     return groups
 
 
+def hash_toy(s):
+    """TraceqlCase.hash_toy (the oracle's instance of cityHash64)"""
+    h = 7
+    for c in reversed(s.encode("utf8", "surrogateescape")):
+        h = c + 31 * h
+    return h
+
+
 def gen_sep_db(c, rnd):
-    """the SEPARATING database of a query with several conditions on one attribute under one operator: one trace per literal, one span
-    each, carrying exactly that literal as the attribute's value (plus one trace with none of them).  If the planner identified two of the
-    conditions, the trace of the second literal is lost (=, =~ under ||) or wrongly kept (!=, !~ under &&).  None when there is no such group."""
+    """the SEPARATING database of a query with several conditions on one attribute: per candidate value one trace with one span that
+    carries exactly that value -- the literals themselves and their neighbours (number +-1, string + "_").  If the planner identified two of
+    the conditions (same key for analyzeCond), a trace that only the second one selects is lost, or one that only the second one excludes
+    is kept.  Trace ids are chosen inside the portion of the first call.  None when there is no such group."""
     import datetime
+    from decimal import Decimal, InvalidOperation
     groups = same_slot_groups(c["ast"])
     if not groups:
         return None
     ctx = c["ctx"]
     rows = []
-    n = 0
+    n = [0]
+    nt = 0
     width = ctx["to_ns"] - ctx["from_ns"]
-    for label, op, vals in groups:
-        k = strip_scope(label)
-        if k is None:
-            continue
-        lits = []
-        for v in vals:
+
+    def next_trace():
+        while True:
+            n[0] += 1
+            t = "t%d" % n[0]
+            if ctx["rf_max"] <= 0 or hash_toy(t) % ctx["rf_max"] == ctx["rf_i"]:
+                return t
+    for nl, terms, all_terms in groups:
+        keys, vals = [], []
+        for label, op, v in terms:
+            k = strip_scope(label)
+            if k not in keys:
+                keys.append(k)
             if v["s"] is not None and v["unq"] is not None:
-                lits.append(unhex(v["unq"]).decode("utf8", "surrogateescape"))
+                u = unhex(v["unq"]).decode("utf8", "surrogateescape")
+                vals += [u] if op in ("=~", "!~") else [u, u + "_"]
             elif v["f"]:
-                # as in gen_db: stored numbers keep at most six decimals (the evaluator reads Float64 as exact rationals; a stored value with
-                # more digits than a float64 keeps would be judged differently from ClickHouse)
-                from decimal import Decimal, InvalidOperation
+                # as in gen_db: stored numbers keep at most six decimals (the evaluator reads Float64 as exact rationals; a stored value
+                # with more digits than a float64 keeps would be judged differently from ClickHouse)
                 try:
-                    lits.append(dec_str(Decimal(v["f"])))
+                    th = Decimal(v["f"])
+                    vals += [dec_str(th), dec_str(th - 1), dec_str(th + 1)]
                 except InvalidOperation:
                     pass
-        for val in lits + ["zz-other"]:
-            n += 1
-            ts = ctx["from_ns"] + (width * n) // 40 + rnd.randrange(0, 1000)
-            date = datetime.datetime.fromtimestamp(ts // 10**9, datetime.timezone.utc).strftime("%Y-%m-%d")
-            rows.append({"date": date, "key": k, "val": val, "trace": "t%d" % n, "span": "s1", "ts": ts, "dur": 1000})
+        vals = list(dict.fromkeys(vals))[:8] + ["zz-other"]
+        # what makes the terms on OTHER attributes true (a conjunction around the group needs them, a disjunction must not have them:
+        # every candidate gets a bare trace and a trace with the company)
+        company = {}
+        for label, op, v in all_terms:
+            k2 = strip_scope(label)
+            if k2 is not None and k2 not in keys and sat(op, v) is not None:
+                company.setdefault(k2, sat(op, v))
+        for k in keys[:3]:
+            for val in vals:
+                for full in ((False, True) if company else (False,)):
+                    if len(rows) >= 60:
+                        break
+                    nt += 1
+                    ts = ctx["from_ns"] + (width * nt) // 80 + rnd.randrange(0, 1000)
+                    date = datetime.datetime.fromtimestamp(ts // 10**9, datetime.timezone.utc).strftime("%Y-%m-%d")
+                    tr = next_trace()
+                    rows.append({"date": date, "key": k, "val": val, "trace": tr, "span": "s1", "ts": ts, "dur": 1000})
+                    if full:
+                        for k2 in sorted(company):
+                            rows.append({"date": date, "key": k2, "val": company[k2], "trace": tr, "span": "s1", "ts": ts, "dur": 1000})
     return rows or None
 
 
@@ -1034,7 +1075,8 @@ def run(ck):
     ck.coverage["evaluations"] += len(cases)
     ck.coverage["distinct_nontrivial"] += len(distinct)
     ck.coverage["rule"] += ("queries: grammar-driven TraceQL text (nested and/or with parentheses, repeated terms, span./resource./. prefixes and name, all operators, "
-                            "durations, aggregators with units, selector pairs and chains, {} forms, malformed text); non-trivial = parsed and planned to a statement; distinct by query text+mode. ")
+                            "durations, aggregators with units, selector pairs and chains, {} forms, malformed text; every 10th query a point of the confusable-term grid: two or three "
+                            "conditions of one selector whose literals / operators / labels a printer might conflate, literals up to 520 bytes); non-trivial = parsed and planned to a statement; distinct by query text+mode. ")
     ck.extra["input_distribution"] = hist
     ck.extra["parse_rejected"] = len(cases) - len(parsed)
     ck.extra["raw_fragments_untranslated"] = stats.get("raw_fallback", 0)
@@ -1043,4 +1085,35 @@ def run(ck):
                                              "traceql_correct_chain": stats.get("scope_chain", 0),
                                              "traceql_correct_single/agg_portion": stats.get("scope_portion", 0),
                                              "of_cases": len(usable)}
+    # the tie of the de-duplication key: how far the generated literals reach (token lengths, common prefixes inside one label/operator slot)
+    def common_prefix(a, b):
+        n = 0
+        while n < len(a) and n < len(b) and a[n] == b[n]:
+            n += 1
+        return n
+    lens = {"<=48": 0, "49-64": 0, "65-256": 0, ">256": 0}
+    cps = {"<48": 0, "48-63": 0, "64-255": 0, ">=256": 0}
+    for c in parsed:
+        ts, _ = script_terms(c["ast"])
+        for _, _, v in ts:
+            tok = unhex(v["s"]) if v["s"] is not None else (v["f"] or v["t"]).encode()
+            n = len(tok)
+            lens["<=48" if n <= 48 else "49-64" if n <= 64 else "65-256" if n <= 256 else ">256"] += 1
+        for _, terms, _ in same_slot_groups(c["ast"]):
+            toks = [unhex(v["s"]) if v["s"] is not None else (v["f"] or v["t"]).encode() for _, _, v in terms]
+            for i in range(len(toks)):
+                for j in range(i + 1, len(toks)):
+                    if terms[i][0] == terms[j][0] and terms[i][1] == terms[j][1] and toks[i] != toks[j]:
+                        n = common_prefix(toks[i], toks[j])
+                        cps["<48" if n < 48 else "48-63" if n < 64 else "64-255" if n < 256 else ">=256"] += 1
+    kinds = {}
+    for c in cases:
+        if c["class"].startswith("confusable:"):
+            k = c["class"].split(":")[1].split("+")[0]
+            kinds[k] = kinds.get(k, 0) + 1
+    ck.extra["key_tie"] = {"terms_compared_with_the_real_String()": stats.get("key_terms", 0), "longest_key_bytes": stats.get("key_longest", 0),
+                           "queries_with_several_different_terms_on_one_attribute": stats.get("key_groups", 0),
+                           "value_token_bytes": lens, "common_prefix_bytes_of_two_literals_under_one_label_and_operator": cps,
+                           "confusable_kinds": kinds, "searches_with_a_separating_database": sum(1 for c in usable if c.get("sep_db")),
+                           "key_collisions": len(stats.get("key_collisions", []))}
     ck.add_samples([{"query": qtext(c), "mode": c["mode"], "sql_prefix": unhex(c["obs"][0]["sql"]).decode()[:300]} for c in usable if c.get("obs") and "sql" in c["obs"][0]][:3])
